@@ -2,6 +2,7 @@
 package load
 
 import (
+	"encoding/json"
 	"fmt"
 	"go/ast"
 	"go/token"
@@ -32,9 +33,43 @@ type Program struct {
 	allFns  map[*ssa.Function]bool
 }
 
+// OverlayJSON, when set, names a `go build -overlay` file; it is applied to both
+// the type-checker's view and the compiler's (self-test variants only).
+var OverlayJSON string
+
+func readOverlay() (map[string][]byte, error) {
+	if OverlayJSON == "" {
+		return nil, nil
+	}
+	b, err := os.ReadFile(OverlayJSON)
+	if err != nil {
+		return nil, err
+	}
+	var o struct{ Replace map[string]string }
+	if err := json.Unmarshal(b, &o); err != nil {
+		return nil, err
+	}
+	out := map[string][]byte{}
+	for k, v := range o.Replace {
+		c, err := os.ReadFile(v)
+		if err != nil {
+			return nil, err
+		}
+		out[k] = c
+	}
+	return out, nil
+}
+
 // Load loads every package of the module rooted at dir. overlay may be nil.
 func Load(dir, modPath string, overlay map[string][]byte, needSSA bool) (*Program, error) {
 	os.Unsetenv("GOWORK")
+	if overlay == nil {
+		ov, err := readOverlay()
+		if err != nil {
+			return nil, err
+		}
+		overlay = ov
+	}
 	cfg := &packages.Config{
 		Mode:    packages.LoadAllSyntax,
 		Dir:     dir,
@@ -219,6 +254,9 @@ var bceRe = regexp.MustCompile(`^(.+?):(\d+):(\d+): Found (IsInBounds|IsSliceInB
 // and returns the positions of all bounds checks that remain.
 func CompilerResiduals(dir string, overlayJSON string) ([]Residual, error) {
 	args := []string{"build", "-gcflags=-d=ssa/check_bce/debug=1"}
+	if overlayJSON == "" {
+		overlayJSON = OverlayJSON
+	}
 	if overlayJSON != "" {
 		args = append(args, "-overlay", overlayJSON)
 	}
